@@ -117,14 +117,14 @@ class Model:
         if r.watch_absent is not None and p.watch.get(r.watch_absent) is not None:
             return 'created:' + r.watch_absent
         c = self.cur_ctx
-        if c is not None and c['obs'] is not None and n in c['obs'] and n not in c['ran'] and self.removed_stamp_below(n) \
+        if c is not None and c['obs'] is not None and self.obs_left(c, n) and self.removed_stamp_below(n) \
                 and not self.settles_to_run(n, c):
             # a checksummed dependency whose file the user removed: the dependency did change (it
             # vanished), so running n directly is legitimate; settling it through the checksum is too.
             # Which of the two redo does depends on evaluation order, so the observation decides.
             c['maybe'].add(n)
             return 'dep-file-removed'
-        if c is not None and c['obs'] is not None and n in c['obs'] and n not in c['ran'] and self.removed_stamp_in_closure(n, set()) \
+        if c is not None and c['obs'] is not None and self.obs_left(c, n) and self.removed_stamp_in_closure(n, set()) \
                 and not self.settles_to_run(n, c):
             # Known finding (C02/C03): the hand-removed checksummed target sits further down.  The first process that looks
             # at it takes it for "maybe changed"; redo then forgets that it was a target (failed_runid = 0), so every later
@@ -242,7 +242,7 @@ class Model:
                 return ctx['done'][n]
             del ctx['done'][n]
         s, why = self.status(n, ctx, {}, forced)
-        if s != 'dirty' and ctx['obs'] is not None and n in ctx['obs'] and n not in ctx['ran']:
+        if s != 'dirty' and ctx['obs'] is not None and self.obs_left(ctx, n):
             trig = self.extra_trigger(n, ctx)
             if trig and not self.settles_to_run(n, ctx):
                 # redo records the checksummed targets it built out of band while n's script was running as
@@ -276,7 +276,7 @@ class Model:
         ok = self.settle(n, ctx, s, why, forced)
         if ok is not None:
             return ok
-        if ctx.get('start') is not None and n in ctx['obs'] and n not in ctx['ran'] and n in ctx['start'].R and ctx['start'].R[n].built \
+        if ctx.get('start') is not None and self.obs_left(ctx, n) and n in ctx['start'].R and ctx['start'].R[n].built \
                 and ctx['start'].rounds_needed(n) >= 2:
             # Parallel command: n was judged while two nested levels of checksummed targets below it were still
             # undecided.  After one out-of-band round redo runs n itself (as in the serial case, see settle());
@@ -286,7 +286,7 @@ class Model:
             return self.run_script(n, ctx, 'unsettled-parallel:' + str(why))
         # settled clean: an extra edge may still have changed while settling
         trig = self.extra_trigger(n, ctx)
-        if trig and ctx['obs'] is not None and n in ctx['obs'] and n not in ctx['ran']:
+        if trig and ctx['obs'] is not None and self.obs_left(ctx, n):
             ctx['maybe'].add(n)
             return self.run_script(n, ctx, 'extra-edge:' + trig)
         ctx['done'][n] = True
@@ -321,7 +321,7 @@ class Model:
                 # itself at this point; in which order the nested targets were settled depends on hash
                 # and schedule order, so n is a may-run and the observation decides.
                 ctx['maybe'].add(n)
-                if not tops or rounds > 6 or ctx['obs'] is None or (n in ctx['obs'] and n not in ctx['ran']):
+                if not tops or rounds > 6 or ctx['obs'] is None or self.obs_left(ctx, n):
                     if self.clean_if_fully_settled(n, ctx['done']):
                         ctx['unsettled_overbuild'].add(n)
                     s, why = 'dirty', 'unsettled:' + str(why)
@@ -463,6 +463,15 @@ class Model:
         return set(c['ran'])
 
     @staticmethod
+    def obs_left(ctx, n):
+        """Is there an observed execution of n that the model has not accounted for yet - not counting the ones that
+        forced targets still to come on this command line will need?"""
+        if ctx['obs'] is None or n not in ctx['obs']:
+            return False
+        cnt = (ctx.get('obsn') or {}).get(n, 1)
+        return cnt - ctx['ran'].count(n) - ctx.get('pending_forced', []).count(n) > 0
+
+    @staticmethod
     def observed_more(ctx, names):
         """Did the observation execute one of `names` more often than the model has accounted for so far?"""
         if ctx['obs'] is None:
@@ -522,7 +531,10 @@ class Model:
         self.cur_ctx = ctx
         allok = True
         failed_known = False
+        ctx['pending_forced'] = list(targets) if forced else []
         for t in targets:
+            if forced and t in ctx['pending_forced']:
+                ctx['pending_forced'].remove(t)
             if failed_known and not keep:
                 wr = self.would_run(t, ctx)
                 if not wr and not forced:
